@@ -1380,8 +1380,86 @@ fn enumerate(args: &[String]) -> i32 {
                 }
             }
         }
+        Some("wide") => {
+            // lengths, offsets and occurrence counts at 255 / 256 / 257 (and 65 535 / 65 536 / 65 537 with
+            // `--big`): the model counts in Nat; an implementation that keeps a length, a shift or a count
+            // in u8 / u16 answers differently exactly there
+            let mut ls: Vec<usize> = vec![254, 255, 256, 257, 258, 511, 512, 513];
+            if util::flag(args, "--big") {
+                ls.extend([65534, 65535, 65536, 65537, 65538, 131072, 131073]);
+            }
+            let hx = |s: &str| util::hex(s.as_bytes());
+            let fb = |x: f64| format!("{:016x}", x.to_bits());
+            for &l in &ls {
+                let a = "a".repeat(l);
+                let ab = "ab".repeat(l / 2 + 1);
+                let mb = "é".repeat(l);
+                let mut lines: Vec<String> = Vec::new();
+                // find: the first occurrence AT offset l-1 / l, after near misses; needles of 1, 2, 3, 16, 17, 40 bytes
+                for nl in [1usize, 2, 3, 8, 16, 17, 24, 40] {
+                    let needle = format!("{}b", "a".repeat(nl - 1));
+                    for off in [l - 1, l, l + 1] {
+                        let h = format!("{}{}{}", "a".repeat(off), &needle[nl - 1..], "a".repeat(7));
+                        // occurrence starts at off - (nl - 1)
+                        lines.push(format!("find {} {}", hx(&h), hx(&needle)));
+                    }
+                    // no occurrence at all in l bytes; needle at the very end
+                    lines.push(format!("find {} {}", hx(&a), hx(&needle)));
+                    lines.push(format!("find {} {}", hx(&format!("{a}{needle}")), hx(&needle)));
+                }
+                // needles as long as the boundary: equal to the haystack, behind a near miss, periodic
+                let long_n = format!("{}b", "a".repeat(l - 1));
+                lines.push(format!("find {} {}", hx(&long_n), hx(&long_n)));
+                lines.push(format!("find {} {}", hx(&format!("{a}{long_n}")), hx(&long_n)));
+                lines.push(format!("find {} {}", hx(&format!("{}c{}", &ab[..l], &ab[..l + 1])), hx(&ab[..l + 1])));
+                lines.push(format!("find {} {}", hx(&format!("{}{}", &ab[1..l], &ab[..l])), hx(&ab[..l])));
+                lines.push(format!("find {} {}", hx(&format!("{mb}x")), hx("x")));
+                lines.push(format!("find {} {}", hx(&format!("{mb}xy")), hx("xy")));
+                // replace: l occurrences; an occurrence at offset l; result longer / shorter than l; empty pattern
+                let bs = "b".repeat(l);
+                lines.push(format!("replace {} {} {}", hx(&bs), hx("b"), hx("cc")));
+                lines.push(format!("replace {} {} {}", hx(&bs), hx("b"), hx("")));
+                lines.push(format!("replace {} {} {}", hx(&format!("{a}b{a}b")), hx("ab"), hx("Z")));
+                lines.push(format!("replace {} {} {}", hx(&format!("{a}b")), hx(&long_n), hx("Z")));
+                lines.push(format!("replace {} {} {}", hx(&ab[..l]), hx("ab"), hx("ba")));
+                if l <= 600 {
+                    lines.push(format!("replace {} {} {}", hx(&a), hx(""), hx("-")));
+                    lines.push(format!("replace {} {} {}", hx(&mb), hx(""), hx("-")));
+                }
+                // slice: character indices at the boundary, one- and two-byte characters, negative and fractional
+                let lf = l as f64;
+                for s in [&a, &mb] {
+                    for (x, y) in [(lf - 2.0, lf), (lf - 1.0, lf + 5.0), (0.0, lf), (0.0, lf - 1.0), (-2.0, lf), (-lf, 2.0 - lf), (-lf - 1.0, 1.0), (lf - 1.5, lf - 0.5), (1.0, 2.0), (lf, lf + 1.0)] {
+                        lines.push(format!("slice {} {} {}", hx(s), fb(x), fb(y)));
+                    }
+                }
+                // len (bytes vs characters), case mapping that changes the byte length, trim of l blanks
+                lines.push(format!("len {}", hx(&a)));
+                lines.push(format!("len {}", hx(&mb)));
+                lines.push(format!("len {}", hx(&format!("{a}é"))));
+                lines.push(format!("upper {}", hx(&format!("{}ß", &a[1..]))));
+                lines.push(format!("upper {}", hx(&mb)));
+                lines.push(format!("lower {}", hx(&"É".repeat(l))));
+                lines.push(format!("lower {}", hx(&format!("{}B", "A".repeat(l - 1)))));
+                lines.push(format!("trim {}", hx(&format!("{}x{}", " ".repeat(l), " ".repeat(l)))));
+                lines.push(format!("trim {}", hx(&format!("{}x{}", "\u{a0}".repeat(l), "\t".repeat(l)))));
+                // split / split-join: l separators, a separator at offset l, empty pattern on short subjects only
+                let sep = "x,".repeat(l);
+                lines.push(format!("split {} {}", hx(&sep), hx(",")));
+                lines.push(format!("splitjoin {} {}", hx(&sep), hx(",")));
+                lines.push(format!("split {} {}", hx(&format!("{a},{a}")), hx(",")));
+                lines.push(format!("splitjoin {} {}", hx(&format!("{a}ab{a}")), hx("ab")));
+                if l <= 600 {
+                    lines.push(format!("split {} {}", hx(&a), hx("")));
+                }
+                for ln in lines {
+                    out.line(&ln);
+                    count += 1;
+                }
+            }
+        }
         _ => {
-            eprintln!("usage: nvh strs enum --kind short|long|slice [--hmax H] [--nmax K]");
+            eprintln!("usage: nvh strs enum --kind short|long|slice|wide [--hmax H] [--nmax K] [--big]");
             return 2;
         }
     }
